@@ -10,7 +10,6 @@ open XotModel.Props
 #print axioms C10_sound_false
 #print axioms C10_error_element
 #print axioms C10_error_attribute
-#print axioms ownEvent_startTagOpen
 #print axioms C10_stack_traversal
 #print axioms C10_sound_tree_partial
 #print axioms C10_sound_tree_endtag_partial
